@@ -568,7 +568,9 @@ impl MempoolInner {
                         self.pending
                             .add(promotion_tx, current_nonce, &current_balances)
                     {
-                        self.contained_txs.remove(&tx_id);
+                        // report the transaction as removed (as `insert` does for a failed
+                        // promotion) rather than silently dropping it
+                        removed_txs.push((tx_id, RemovalReason::InternalError));
                         self.metrics.increment_internal_logic_error();
                         error!(
                             address = %telemetry::display::base64(&address_bytes),
@@ -585,7 +587,9 @@ impl MempoolInner {
                         self.parked
                             .add(demotion_tx, current_nonce, &current_balances)
                     {
-                        self.contained_txs.remove(&tx_id);
+                        // the transaction has already left pending: report it as removed
+                        // rather than silently dropping it
+                        removed_txs.push((tx_id, RemovalReason::InternalError));
                         self.metrics.increment_internal_logic_error();
                         error!(
                             address = %telemetry::display::base64(&address_bytes),
